@@ -524,6 +524,8 @@ def run(ctx):
                            env={"VF_SCHEDULES": dsp, "VF_TRACES": dtr, "VF_PAR": 8, "VF_WATCHDOG_MS": 1500}, timeout=900, check=False),
         "scen": pool.submit(vf.run_gotest, ctx, binary, "^TestVfC17Scenarios$", env={"VF_TRACES": scn, "VF_EV_SCHEDULE": evsp},
                             timeout=900, check=False),
+        "scen2": pool.submit(vf.run_gotest, ctx, binary, "^TestVfC17ScenariosIsolated$", env={"VF_TRACES": scn + ".isolated"},
+                             timeout=900, check=False),
         "policy": pool.submit(vf.run_gotest, ctx, binary, "^TestVfC17PolicyPool$",
                               env={"VF_TRACES": os.path.join(ctx.tmp, "policy_traces.ndjson"), "VF_TRIALS": 90 if quick else 300},
                               timeout=600, check=False),
@@ -633,7 +635,7 @@ def run(ctx):
     unfollowed = sum(1 for r in dres if r["stuck"])
 
     # ---- 4c. named scenarios
-    sres = vf.read_ndjson(scn)
+    sres = vf.read_ndjson(scn) + vf.read_ndjson(scn + ".isolated")
     scen_errors = unsettled
     for r in sres:
         if r["err"]:
